@@ -135,6 +135,8 @@ class State:
         self.counter = [0]
         self.signed_split = {}  # signed symbol -> +1/-1 after split
         self.bools = {}  # opaque predicate name -> bool
+        self.nzp = set()  # repr of polynomials known non-zero
+        self.fid = 0  # current frame id: locals are keyed (fid, index)
 
     def fork(self):
         s = State()
@@ -147,6 +149,8 @@ class State:
         s.counter = self.counter
         s.signed_split = dict(self.signed_split)
         s.bools = dict(self.bools)
+        s.nzp = set(self.nzp)
+        s.fid = self.fid
         return s
 
     def fresh(self, base):
@@ -191,6 +195,18 @@ class State:
         """True / False / None for 'polynomial p == 0' (magnitudes are >= 0)"""
         if p.is_const():
             return p.const_value() == 0
+        if repr(p) in self.nzp or repr(-p) in self.nzp:
+            return False
+        for (a, b) in self.lt:
+            # a < b  =>  b - a != 0
+            if len(p.t) >= 2:
+                for (x, y) in ((a, b), (b, a)):
+                    pass
+        if len(p.t) >= 2 and any(v < 0 for v in p.t.values()):
+            pos = Poly({k: v for k, v in p.t.items() if v > 0})
+            neg = -Poly({k: v for k, v in p.t.items() if v < 0})
+            if (repr(neg), repr(pos)) in self.lt or (repr(pos), repr(neg)) in self.lt:
+                return False
         s = p.single_symbol()
         if s and s in self.nz:
             return False
@@ -224,9 +240,25 @@ class Interp:
         self.unsupported = []
         self.npaths = 0
 
+    def panic_only(self, body):
+        po = getattr(body, "_panic_only", None)
+        if po is None:
+            from . import tests as _t
+
+            po = set()
+            rets = set(body.return_blocks())
+            for x in body.live_blocks():
+                if x == 0:
+                    continue
+                r = body.reachable(x)
+                if not (r & rets) and any(core.is_panic_call(body.blocks[y]["term"]) for y in r if body.blocks[y].get("term")):
+                    po.add(x)
+            body._panic_only = po
+        return po
+
     # --- places
     def read_place(self, st, pl):
-        v = st.env.get(pl["local"])
+        v = st.env.get((st.fid, pl["local"]))
         if v is None:
             raise Unsupported("read of uninitialised _%d" % pl["local"])
         for e in pl["proj"]:
@@ -279,7 +311,7 @@ class Interp:
         return v
 
     def lvalue(self, st, pl):
-        cell, path = pl["local"], ()
+        cell, path = (st.fid, pl["local"]), ()
         for e in pl["proj"]:
             k = e["k"]
             if k == "deref":
@@ -330,7 +362,7 @@ class Interp:
 
     def write_place(self, st, pl, val):
         if not pl["proj"]:
-            st.env[pl["local"]] = val
+            st.env[(st.fid, pl["local"])] = val
             return
         # a field write into an uninitialised tuple/struct local: build incrementally
         cell, path = self.lvalue(st, pl)
@@ -351,6 +383,16 @@ class Interp:
             v = op["deref_val"]
             st.env[cell] = BOOL(v) if isinstance(v, bool) else INT(int(v), strip_refs(ty))
             return PTR(cell)
+        if "deref_enum" in op:
+            de = op["deref_enum"]
+            cell = st.fresh("promoted")
+            if de["adt"] == "bigint::Sign":
+                st.env[cell] = SIGN({"Minus": -1, "NoSign": 0, "Plus": 1}[de["variant"]])
+            elif de["adt"] == "core::cmp::Ordering":
+                st.env[cell] = ORD({"Less": -1, "Equal": 0, "Greater": 1}[de["variant"]])
+            else:
+                st.env[cell] = ENUM(de["adt"], de["variant"], [])
+            return PTR(cell)
         if "named" in op:
             n = op["named"]
             if n.endswith("BigInt::ZERO"):
@@ -362,6 +404,8 @@ class Interp:
             return UNIT
         if "str" in op:
             return OPAQUE("str")
+        if ty.startswith("&[") or ty.startswith("&'static [") or ty.startswith("&str") or "core::fmt" in ty:
+            return OPAQUE("const " + ty)
         raise Unsupported("constant of type %s" % ty)
 
     def eval_operand(self, st, op):
@@ -402,22 +446,16 @@ class Interp:
         """generator of outcomes: ('return', state, value) / ('panic', state, info)"""
         if len(args) != body.arg_count:
             raise Unsupported("arity mismatch calling %s" % body.path)
-        frame = {}
-        # locals are per-frame: save env keys that are ints
-        saved = {k: v for k, v in st.env.items() if isinstance(k, int)}
-        for k in list(st.env):
-            if isinstance(k, int):
-                del st.env[k]
+        caller = st.fid
+        st.counter[0] += 1
+        fid = st.counter[0]
+        st.fid = fid
         for i, a in enumerate(args):
-            st.env[i + 1] = a
+            st.env[(fid, i + 1)] = a
         for out in self.run_from(body, st, 0, depth, set()):
             kind, s2 = out[0], out[1]
-            # restore caller frame
-            ret = s2.env.get(0, UNIT) if kind == "return" else None
-            for k in list(s2.env):
-                if isinstance(k, int):
-                    del s2.env[k]
-            s2.env.update(saved)
+            ret = s2.env.get((fid, 0), UNIT) if kind == "return" else None
+            s2.fid = caller
             if kind == "return":
                 yield ("return", s2, ret)
             else:
@@ -428,6 +466,10 @@ class Interp:
             steps += 1
             if steps > 6000:
                 raise Unsupported("loop or too long a path in %s" % body.path)
+            if si0 == 0 and bb in self.panic_only(body):
+                # every continuation of this block panics (assert!/panic! message building): no value is produced
+                yield ("panic", st, "explicit panic path (bb%d)" % bb)
+                return
             bl = body.blocks[bb]
             stmts = bl["stmts"]
             si = si0
@@ -536,6 +578,21 @@ class Interp:
                 # sum / product of non-negative symbols with positive coefficients: decide one undetermined symbol
                 # at a time (the caller re-evaluates known_zero afterwards)
                 if not all(c > 0 for c in p.t.values()):
+                    # linear term `sym - c` / `c - sym`: zero iff sym == c
+                    syms = sorted(p.symbols())
+                    if len(syms) == 1 and len(p.t) == 2 and p.t.get(((syms[0], 1),)) in (1, -1) and () in p.t:
+                        c0 = -p.t[()] * p.t[((syms[0], 1),)]
+                        if c0 >= 0:
+                            a = st.fork()
+                            a.substitute(syms[0], Poly.const(c0))
+                            if c0 > 0:
+                                a.nz.discard(syms[0])
+                            a.trace.append("%s=%d" % (syms[0], c0))
+                            a.normalize()
+                            b = st.fork()
+                            b.nzp.add(repr(p))
+                            b.trace.append("%s!=%d" % (syms[0], c0))
+                            return [a, b]
                     raise Unsupported("zero test of mixed-sign term %r" % (p,))
                 cands = sorted(x for x in p.symbols() if x not in st.nz)
                 if not cands:
@@ -604,7 +661,7 @@ class Interp:
             pl = rv["place"]
             # pointer to the place
             if pl["proj"] and pl["proj"][0]["k"] == "deref" and len(pl["proj"]) == 1:
-                v = st.env.get(pl["local"])
+                v = st.env.get((st.fid, pl["local"]))
                 if v is not None and v[0] == "ptr":
                     return v  # reborrow
             cell, path = self.lvalue(st, pl)
@@ -631,6 +688,8 @@ class Interp:
             ops = [self.eval_operand(st, o) for o in rv["ops"]]
             if ak == "tuple":
                 return TUPLE(ops) if ops else UNIT
+            if ak == "array":
+                return OPAQUE("array")
             if ak == "adt":
                 adt = rv["adt"]
                 if adt == "bigint::Sign":
@@ -787,6 +846,7 @@ class Interp:
         n = len(st.divs)
         q, r = "Q%d" % n, "R%d" % n
         st.divs.append((x, y, q, r))
+        st.lt.add((repr(Poly.sym(r)), repr(y)))
         return Poly.sym(q), Poly.sym(r)
 
     # --- calls
